@@ -119,6 +119,10 @@ def gen_case(rng: random.Random, op: str, constraint: Any = "random") -> OpCase:
     if op in ("layer_norm", "rms_norm"):
         shape = tuple(_distinct_primes(rng, rng.randint(1, 4)))
         nn_ = rng.randint(1, min(2, len(shape)))
+        if rng.random() < 0.25:
+            k_ = rng.choice([2, 3, 4])
+            shape = tuple(_distinct_primes(rng, rng.randint(0, 2))) + (k_, k_)       # normalised dims of equal size
+            nn_ = 2
         norm_shape = shape[-nn_:]
         affine = rng.random() < 0.7
         shapes = {"input": shape}
